@@ -261,7 +261,7 @@ fn values_debug(v: &Values) -> Vec<String> {
     v.0.iter().map(|x| format!("{x:?}")).collect()
 }
 
-fn case_strategy() -> impl Strategy<Value = Case> {
+pub fn case_strategy() -> impl Strategy<Value = Case> {
     stmt_gen::stmt_exec(ExecOpts { portable: false }).prop_map(|stmt| Case { stmt })
 }
 
